@@ -229,6 +229,20 @@ def run(ctx):
     ctx.decide(bool(okr), "C11.snapshot", ces0.ident, loc_of(ces0), "the generator state stored is read from the sampler's generator at checkpoint time",
                f"rng_state in the payload is {T.show(rv)[:100] if rv else 'absent'}", disc="rng")
 
+    # ---- post-loop enlargement is idempotent under resume
+    en = [n for n in walk_no_nested(sample.node) if isinstance(n, ast.If) and n.lineno > loop_node.end_lineno
+          and any(isinstance(c, ast.Call) and isinstance(c.func, ast.Attribute) and c.func.attr == "mutate" for c in ast.walk(n))]
+    if en:
+        from ..evalr import Frame, State
+        fr0 = Frame(Evaluator(repo), sample, smc, 0)
+        g0 = fr0.eval(en[0].test, State())
+        parts = list(g0[1]) if g0[0] == "and" else [g0]
+        cur = [p_ for p_ in parts if p_[0] == "cmp" and any(s_ and s_[0] == "f" and s_[1] == "len" for s_ in T.subterms(p_)) and any(s_ == T.atom("n_final_samples") for s_ in T.subterms(p_))]
+        ctx.decide(bool(cur), "C11.idem", sample.ident, loc_of(sample, en[0]),
+                   "the final-sample enlargement is guarded by the *current* population size, so a run resumed from the final checkpoint is not enlarged again",
+                   f"the final-sample enlargement is guarded by {T.show(g0)[:160]}, which does not look at the current population: resuming from the final (already enlarged) "
+                   "checkpoint resamples and mutates the population a second time")
+
     # ---- no mutation of restored state before the loop
     muts = [e for e in sf_res.events(None, in_loop=False)
             if e.node.lineno < loop_node.lineno and e.callee in ("method:append", "method:extend", "method:insert", "method:pop", "method:clear", "method:remove")
@@ -395,6 +409,7 @@ MUTANTS = [
     M("restored iteration dropped", _B, "samples, beta, iterations = self.restore_from_checkpoint(\n                resume_from\n            )", "samples, beta, _ = self.restore_from_checkpoint(\n                resume_from\n            )\n            iterations = 0", "C11.state"),
 ]
 MUTANTS += [
+    M("enlargement guarded by the requested sizes", _B, "if n_final_samples is not None and len(samples.x) != n_final_samples:", "if n_final_samples is not None and n_final_samples != n_samples:", "C11.idem"),
     M("history aliased into the checkpoint", _B, "history_copy = copy.deepcopy(self.history)", "history_copy = self.history", "C11.snapshot"),
     M("history shallow-copied into the checkpoint", _B, "history_copy = copy.deepcopy(self.history)", "history_copy = copy.copy(self.history)", "C11.snapshot"),
 ]
